@@ -18,7 +18,7 @@ def pick(line_key, seed, keep_frac):
     return int.from_bytes(h[:4], "big") / 2**32 < keep_frac
 
 
-def run_batch(g, tier, name, runs, out, acc):
+def run_batch(g, tier, name, runs, out, acc, cfg_text=None, decode=None):
     """replay one batch of runs on the real code and judge it; only verdicts are kept"""
     if not runs:
         return
@@ -32,6 +32,16 @@ def run_batch(g, tier, name, runs, out, acc):
     out["wall"]["judge"] = round(out["wall"].get("judge", 0) + time.time() - t0, 2)
     acc["runs"] += verdict["runs"]
     acc["events"] += verdict["events"]
+    if g.get("conform") and cfg_text:
+        # impl -> spec at event level: TLC steps the implementation-shaped model along every recorded run
+        t1 = time.time()
+        c = vlib.conform(dict(g["conform"], decode=decode), cfg_text, runs, tp, f"{g['name']}_{tier}_{name}")
+        out["wall"]["conform"] = round(out["wall"].get("conform", 0) + time.time() - t1, 2)
+        cf = acc.setdefault("conform", dict(runs=0, ok=0, steps=0, drift=0, drift_samples=[]))
+        cf["runs"] += c["runs"]; cf["ok"] += c["ok"]; cf["steps"] += c["steps"]; cf["drift"] += c.get("nstuck", 0)
+        for x in c["stuck"]:
+            if len(cf["drift_samples"]) < 12:
+                cf["drift_samples"].append(dict(x, cfg=name))
     # distinct, non-trivial runs: different (configuration, commands) and at least one command besides the
     # handshake and the closing drain
     for r in runs:
@@ -109,17 +119,18 @@ def run_model_group(g, tier, seed):
                 cfg, cmds = decode(tokens, var)
                 if cfg is None:
                     continue
-                runs.append(dict(cfg=cfg, cmds=cmds, model_bad=bad, src=name, tokens=tokens))
+                runs.append(dict(cfg=cfg, cmds=cmds, model_bad=bad, src=name, tokens=tokens, variant=var))
             kept += 1
         out["tlc"].append(dict(cfg=name, generated=r["generated"], distinct=r["distinct"], wall=r["wall"],
                                cached=r["cached"], transitions=total, replayed=kept, model_bad_lines=nbad))
-        run_batch(g, tier, name, runs, out, acc)
+        run_batch(g, tier, name, runs, out, acc, cfg_text, decode)
     rnd = random.Random(seed)
     extra = g.get("extra_runs", lambda tier, rnd: [])(tier, rnd)
     for e in extra:
         e.setdefault("src", "generated")
     run_batch(g, tier, "extra", extra, out, acc)
     out["judge"] = dict(runs=acc["runs"], events=acc["events"], distinct_nontrivial=len(acc["distinct"]))
+    out["conform"] = acc.get("conform")
     out.update(verdict_agree=acc["agree"], verdict_drift=acc["disagree"], drift_samples=acc["dis_samples"],
                viols=acc["viols"], samples=acc["samples"])
     return out
@@ -196,6 +207,7 @@ def report(prop, g, tier, seed, res, wall):
         samples=res["samples"], tlc=res["tlc"],
         verdict_agreement=dict(agree=res["verdict_agree"], drift=res["verdict_drift"], drift_samples=res["drift_samples"]),
         model_invariant_failures=res.get("model_invariant_failures", []),
+        conformance=res.get("conform"),
         violations_for_this_property=len(mine), new_violations=len(new),
         known_findings_seen=list(seen_known), exhaustive=False,
         rule=g["rule"], wall=res.get("wall"), group_cached=res.get("group_cached", False),
